@@ -24,7 +24,8 @@
 //!   `poll`                   one `poll_next`
 //!   `drain`                  `poll_next` until it returns `Ready(None)` or `Pending`
 //!   `collect`                a fresh `ExchangeStream` over `stream::iter(all pushed messages)`, collected
-//!   `parse <msg>`            `WebSocketParser::parse::<Vec<u32>>` and the `process_*` helper directly
+//!   `parse <msg>`            `WebSocketParser::parse::<Vec<u32>>` and the `process_*` helper directly (+ the
+//!                            `Display` text of a `Terminated` error)
 //!   `disc <kind>`            `is_websocket_disconnected`
 //!   `de_u64_ms =<json>` `de_str_u64_ms =<json>` `de_str_f64_ms =<json>` `de_str_f64_s =<json>`
 //!   `de_str_u64 =<json>` `de_str_f64 =<json>`   `de_str::<u64>` / `de_str::<f64>` (value as exact fraction)
@@ -533,9 +534,9 @@ fn run() {
                 }
                 "drain" => {
                     let l = live.as_mut().expect("new first");
-                    for _ in 0..10_000 {
+                    for i in 0..10_000 {
                         let p = poll_once(l);
-                        lines.push(format!("out {}", fmt_poll(&p)));
+                        lines.push(format!("out{i} {}", fmt_poll(&p)));
                         match p {
                             Poll::Ready(Some(_)) => {}
                             _ => break,
@@ -564,9 +565,20 @@ fn run() {
                     buffer.extend(parse_buf(&l.buf0));
                     let ex: ExchangeStream<WebSocketParser, _, ScriptT> =
                         ExchangeStream::new(futures::stream::iter(items), transformer, buffer);
-                    let all: Vec<Result<u64, TErr>> = futures::executor::block_on(ex.collect());
-                    for r in &all {
-                        lines.push(format!("col {}", fmt_item(r)));
+                    // `stream::iter` is always ready, so `collect` completes within one poll unless the
+                    // ExchangeStream itself answers Pending (which would hang a real executor)
+                    let mut fut = Box::pin(ex.collect::<Vec<Result<u64, TErr>>>());
+                    let waker = futures::task::noop_waker();
+                    let mut cx = Context::from_waker(&waker);
+                    let all = match std::future::Future::poll(fut.as_mut(), &mut cx) {
+                        Poll::Ready(all) => all,
+                        Poll::Pending => {
+                            lines.push("coln pending".into());
+                            continue;
+                        }
+                    };
+                    for (i, r) in all.iter().enumerate() {
+                        lines.push(format!("col{i} {}", fmt_item(r)));
                     }
                     lines.push(format!("coln {}", all.len()));
                 }
@@ -589,6 +601,9 @@ fn run() {
                         (WebSocketParser::parse::<Vec<u32>>(Ok(message(&op[1..]))), direct)
                     };
                     lines.push(format!("parse {}", fmt_parsed(&via_parse)));
+                    if let Some(Err(e @ SocketError::Terminated(_))) = &via_parse {
+                        lines.push(format!("display {}", esc(&e.to_string())));
+                    }
                     lines.push(format!("helper {}", fmt_parsed(&via_helper)));
                 }
                 "disc" => {
